@@ -119,6 +119,8 @@ unsafe impl<#[may_dangle] T> Drop for Rc<T> {
         // nodes as dead if they have already been deallocated and short
         // circuit.
         if self.inner().is_dead() {
+            #[cfg(feature = "verif")]
+            crate::verif::bump(&crate::verif::DROP_DEAD_HANDLE);
             return;
         }
 
@@ -159,6 +161,8 @@ unsafe impl<#[may_dangle] T> Drop for Rc<T> {
 
 unsafe fn drop_unreachable<T>(this: &mut Rc<T>) {
     debug!("cactusref detected unreachable Rc");
+    #[cfg(feature = "verif")]
+    crate::verif::bump(&crate::verif::DROP_PLAIN);
     let forward = Link::forward(this.ptr);
     let backward = Link::backward(this.ptr);
     // Remove reverse links so `this` is not included in cycle detection for
@@ -218,6 +222,8 @@ unsafe fn drop_unreachable<T>(this: &mut Rc<T>) {
 }
 
 unsafe fn drop_cycle<T>(cycle: HashMap<Link<T>, usize>) {
+    #[cfg(feature = "verif")]
+    crate::verif::bump(&crate::verif::DROP_GROUP);
     debug!(
         "cactusref detected orphaned cycle with {} objects",
         cycle.len()
@@ -300,6 +306,8 @@ unsafe fn drop_cycle<T>(cycle: HashMap<Link<T>, usize>) {
             // Move `T` and the `HashMap` out of the `RcBox` to be dropped after
             // busting the cycle.
             inners.push((inner.assume_init(), links.assume_init()));
+            #[cfg(feature = "verif")]
+            crate::verif::bump(&crate::verif::DROP_GROUP_MEMBERS);
         }
     }
     // Drop and deallocate all `T` and `HashMap` objects.
@@ -369,6 +377,8 @@ unsafe fn drop_cycle<T>(cycle: HashMap<Link<T>, usize>) {
 // |      |----------| <--------|
 // |--------------------|
 unsafe fn drop_unreachable_with_adoptions<T>(this: &mut Rc<T>) {
+    #[cfg(feature = "verif")]
+    crate::verif::bump(&crate::verif::DROP_WITH_ADOPTIONS);
     // Construct a forward and back link from `this` so we can
     // purge it from the adopted `links`.
     let forward = Link::forward(this.ptr);
@@ -453,5 +463,5 @@ unsafe fn drop_unreachable_with_adoptions<T>(this: &mut Rc<T>) {
 #[cfg(feature = "verif-poison")]
 #[inline(always)]
 unsafe fn verif_poison<F>(field: *mut F) {
-    ptr::write_bytes(field.cast::<u8>(), 0xA5, mem::size_of::<F>());
+    ptr::write_bytes(field.cast::<u8>(), 0xA5, size_of::<F>());
 }
